@@ -481,8 +481,8 @@ fn pq_flat() -> RecordBatch {
 }
 fn pq_strs() -> RecordBatch {
     batch(vec![
-        ("s", Arc::new(StringArray::from(vec![Some("apple"), Some("apricot"), None, Some("banana"), Some("band"), Some("apple")])), true),
-        ("t", Arc::new(StringArray::from(vec!["x", "xy", "xyz", "", "x", "q"])), false),
+        ("s", Arc::new(StringArray::from(vec![Some("\u{e1}pple"), Some("\u{e1}pric\u{f6}t"), None, Some("banana"), Some("b\u{e4}nd"), Some("\u{e1}pple")])), true),
+        ("t", Arc::new(StringArray::from(vec!["\u{e9}", "\u{e9}y", "xyz", "", "\u{e9}", "q"])), false),
         ("y", Arc::new(BinaryArray::from(vec![Some(&b"\x00\x01"[..]), None, Some(&b"\xff"[..]), Some(&b""[..]), Some(&b"ab"[..]), None])), true),
         ("n", Arc::new(Int32Array::from(vec![100, 101, 103, 106, 110, 90])), false),
         ("m", Arc::new(Int64Array::from(vec![Some(-5), None, Some(1 << 40), Some(7), Some(7), Some(8)])), true),
@@ -538,7 +538,7 @@ fn pq_types() -> RecordBatch {
 }
 fn pq_views() -> RecordBatch {
     batch(vec![
-        ("sv", Arc::new(StringViewArray::from(vec![Some("short"), None, Some("a string longer than twelve bytes"), Some("")])), true),
+        ("sv", Arc::new(StringViewArray::from(vec![Some("sh\u{f6}rt"), None, Some("a string l\u{f6}nger than twelve bytes"), Some("")])), true),
         ("d", Arc::new(b_dict().column(0).clone()) as ArrayRef, true),
     ])
 }
